@@ -330,9 +330,9 @@ func (i *c02Inst) Deep() []rep.Violation {
 }
 
 func runC02(r *rep.Run) {
-	depth, maxOthers := 3, 1
+	depth, maxOthers := 4, 1
 	if r.Tier == "thorough" {
-		depth, maxOthers = 3, 2
+		depth, maxOthers = 4, 2
 	}
 	r.Rule = "BFS over relationship-creating histories (body/cell/template-placeholder images, headers and footers of all kinds, list, notes, settings, properties, render, reopen) from a fresh document and from every opened foreign package whose styles/image/header/numbering relationships carry every injective assignment of ids from {rId1,rId2,rId3,rId4,rId7,x1}; every distinct state is saved and the relationship-graph invariant evaluated by the independent reader (ids unique per rels part, internal targets present, types on the right owner, every r:id/r:embed resolves to a relationship of the matching type); signatures carry the origin class (fresh / opened dense / opened sparse / styles not rId1); non-trivial = every executed operation (all create or move relationships)"
 	r.Bounds["depth_including_seed"] = depth
